@@ -12,8 +12,12 @@ open Lean HL HL.Ast
            `ws` (workspace mode) and `root`
     req    index of the requesting file
     docj   parser.Parse of the requesting document (real parser)
+    doct   the requesting document's text (positions are converted with its lines)
     wsres  the workspace's resolved journal as the real server holds it (null if none)
+    wsroot the workspace's root journal path (with wsres)
+    dpath  the requesting document's path
     res    the per-URI resolved journal stored by publishDiagnostics (null if none)
+    bufs   [path, tree] of the open documents that `res` lists: the trees of their buffers
     qs     queries: cursor + what the generator wrote at that position (`exp`, null = nothing)
     impl   {figs: per query the figures parsed back from the real Hover's markdown (null = no
            hover), wf: true}
@@ -129,7 +133,9 @@ def hover (j : Json) : Json := Id.run do
   let req := jnat j "req"
   let doc := journalOf (jget j "docj")
   let lns := HL.Text.lines (jstr j "doct").toList
-  let ws := resolvedOf (jget j "wsres")
+  let wsv : Option WsView := (resolvedOf (jget j "wsres")).map fun r => ⟨r, bs (jstr j "wsroot")⟩
+  let dpath := bs (jstr j "dpath")
+  let ws := workspaceResolvedFor wsv dpath
   let res := resolvedOf (jget j "res")
   let qs := (jarr j "qs").toList
   let impl := (jarr (jget j "impl") "figs").toList
@@ -138,7 +144,7 @@ def hover (j : Json) : Json := Id.run do
     let p := match jget q "p" with
       | .arr a => (⟨asNat a[0]!, asNat a[1]!⟩ : LspPos)
       | _ => ⟨0, 0⟩
-    match Hover.hover ws res doc lns p with
+    match Hover.hoverAt wsv res dpath doc lns p with
     | some h => figuresJ h
     | none => Json.null
   -- ground truth
@@ -151,13 +157,16 @@ def hover (j : Json) : Json := Id.run do
   let paths : List String := arrOf (fun f => jstr f "path") (jget gt "files")
   let rootTree := reach adj root
   let reqTree := reach adj req
-  let members := if wsMode then union rootTree reqTree else reqTree
+  -- the statement's scope: the workspace root's tree from the root and its member files, the
+  -- requesting file's own include tree from anywhere else (and without a workspace)
+  let members := if wsMode && rootTree.contains req then rootTree else reqTree
   let truthTxs := txsOf gAll members
   -- what the real server lists (with multiplicity), read off the resolved journal it used
-  let used : Json := if jhas j "wsres" then jget j "wsres" else jget j "res"
-  let anchor := if jhas j "wsres" then root else req
+  let usedWs := ws.isSome
+  let used : Json := if usedWs then jget j "wsres" else jget j "res"
+  let anchor := if usedWs then root else req
   let listed : List Nat :=
-    if jhas j "wsres" || jhas j "res" then
+    if usedWs || jhas j "res" then
       let inFiles : List String := arrOf (fun e => match e with | .arr a => asStr a[0]! | _ => "") (jget used "files")
       (if jhas used "primary" then [anchor] else []) ++
         (arrOf asStr (jget used "order")).filterMap fun p =>
@@ -165,9 +174,19 @@ def hover (j : Json) : Json := Id.run do
     else [req]
   let listedTxs := listed.flatMap (fun i => gKept.getD i [])
   let gDup := listed.eraseDups.length != listed.length
-  let anchorTree := if wsMode then rootTree else reqTree
+  let anchorTree := if usedWs then rootTree else reqTree
   let gMissing := anchorTree.any (fun m => !listed.contains m)
-  let gOrphan := wsMode && jhas j "wsres" && !rootTree.contains req
+  -- known finding unsaved-include-not-seen: the per-URI tree is used and holds, for an included
+  -- file that is open, another tree than that of its buffer
+  let dpathS := jstr j "dpath"
+  let gStale := !usedWs && jhas j "res" &&
+    (arrOf id (jget (jget j "res") "files")).any fun e => match e with
+      | .arr a =>
+        let p := asStr a[0]!
+        p != dpathS && (arrOf id (jget j "bufs")).any fun b => match b with
+          | .arr x => asStr x[0]! == p && x[1]!.compress != a[1]!.compress
+          | _ => false
+      | _ => false
   let mut specOk := true
   let mut known : Array Json := #[]
   let mut why := ""
@@ -191,11 +210,11 @@ def hover (j : Json) : Json := Id.run do
         let mut ids : Array Json := #[]
         if gDup then ids := ids.push "dup-include-doubled"
         if gMissing then ids := ids.push "warm-cache-truncated-tree"
-        if gOrphan then ids := ids.push "orphan-file-not-counted"
+        if gStale then ids := ids.push "unsaved-include-not-seen"
         if gDropped then ids := ids.push "txline-tags-dropped"
         if gPayee then ids := ids.push "payee-range-estimated"
         let excused :=
-          (alt && (gDup || gMissing || gOrphan || gDropped)) ||
+          (alt && (gDup || gMissing || gDropped)) || gStale ||
           (gDropped && jbool exp "dropped" && shown == Shown.nothing) ||
           (gPayee && (match shown with | .payee _ _ => alt | _ => true))
         if excused then
